@@ -48,6 +48,7 @@ def gen_op(r: random.Random, model: A.Model, *, scoped_bias=0.15, failing_bias=0
     fresh_names = ["new", "extra", "zz", "foo-bar", "x.y", "n1", "added", "q", "user@host"]
     cls = None
     S = None
+    pre_force = None
     if x < failing_bias:
         # classes that the model expects to be rejected
         kind = r.choice(["missing", "through-leaf", "family-root", "missing-nested", "deep-scope", "missing-deep"])
@@ -78,7 +79,8 @@ def gen_op(r: random.Random, model: A.Model, *, scoped_bias=0.15, failing_bias=0
                 value = None
         elif kind == "deep-scope":
             depth = nlayers + r.choice([1, 2]) + (1 if nlayers == 0 else 0)
-            S, cls = ("v",), "deep-scope"
+            bound = sorted({e["path"][:1] for layer in model.layers for e in layer if e["inh"] is None and len(e["path"]) == 1})
+            S, cls = (r.choice(bound) if bound and r.random() < 0.7 else ("v",)), "deep-scope"
     if S is None:
         y = r.random()
         leaves = [p for p, e in defs if not A.is_set(e)]
@@ -96,6 +98,14 @@ def gen_op(r: random.Random, model: A.Model, *, scoped_bias=0.15, failing_bias=0
             # below a name that is only inherited: the statements leave open whether this is refused, but the result
             # must never define the name a second time
             S, cls = (r.choice(inherited), r.choice(["description", "version"])) + (("x",) if r.random() < 0.3 else ()), "through-inherited"
+            if r.random() < 0.4 and not N.needs_quotes(S[0]):
+                pre_force = (0,)  # `"lib".description`: the quoted spelling is the same inherited name
+        elif y < 0.09 and any(len(p) >= 2 for p, _e in defs):
+            # one quoted segment whose text looks like an existing nested path (`"x.y".z` next to `x = { y = …; }` or
+            # `x.y.q = …;`): it names an attribute `x.y` that does not exist, never the nested path
+            pre = r.choice([p[:k] for p, _e in defs for k in range(2, len(p) + 1)])
+            tail = sorted({p[len(pre)] for p, _e in defs if len(p) > len(pre) and p[: len(pre)] == pre})
+            S, cls = (".".join(pre), r.choice(tail + ["fresh"]) if tail else "fresh"), "dotted-lookalike"
         elif y < 0.4 and leaves:
             S, cls = r.choice(leaves), "existing-leaf"
         elif y < 0.5 and sets:
@@ -114,7 +124,9 @@ def gen_op(r: random.Random, model: A.Model, *, scoped_bias=0.15, failing_bias=0
             if op == "rm":
                 cls = "missing"
     force = ()
-    if r.random() < 0.08 and not any(N.needs_quotes(n) for n in S):
+    if pre_force is not None:
+        force = pre_force
+    elif r.random() < 0.08 and not any(N.needs_quotes(n) for n in S):
         # the other spelling of the same name: `"a"` for `a` (must address the same binding)
         force = (r.randrange(len(S)),)
     return op, enc(S, depth, force), value, cls + (f"@{depth}" if depth else "")
